@@ -383,4 +383,59 @@ theorem C09_register_slash (p : Chars) :
         split <;> simp_all
       · split <;> simp_all
 
+/-! ## concrete instances (kernel-evaluated): hypotheses are satisfiable, statements non-trivial -/
+
+section Examples
+open RouteMini
+
+/-- `app d=1 df=9 { s:/a d=2 df=7 { s:/b { r:/{id} ( GET>1 POST>2 ) } }  r:/{t}* ( *>3 ) }` -/
+def exApp : App MiniPat :=
+  { data := some 1
+    dflt := some 9
+    children :=
+      [ .scope [[.lit ['/', 'a']]] [] (some 2)
+          [ .scope [[.lit ['/', 'b']]] [] none
+              [ .resource [[.lit ['/'], .var "id"]] [] none
+                  [⟨[.method "GET"], 1⟩, ⟨[.method "POST"], 2⟩] none ] none ] (some 7),
+        .resource [[.lit ['/'], .rest "t"]] [] none [⟨[], 3⟩] none ] }
+
+def exReq (m : String) (raw : Chars) : Req := { method := m, path := requote raw, headers := [] }
+
+/-- the patterns above are what `parsePattern` yields -/
+example : parsePattern ['/', '{', 'i', 'd', '}'] = [.lit ['/'], .var "id"] ∧
+    parsePattern ['/', '{', 't', '}', '*'] = [.lit ['/'], .rest "t"] := by decide +kernel
+
+/-- `POST /a/b/x%2Fy`: first match, parameters with offsets into the full path, innermost data -/
+example : routeApp miniMatch exApp (exReq "POST" ['/', 'a', '/', 'b', '/', 'x', '%', '2', 'F', 'y']) =
+    ⟨.handler 2, ⟨10, [("id", 5, 10)], [1, 2], [0, 0, 0]⟩⟩ := by decide +kernel
+example : matchInfo (exReq "POST" ['/', 'a', '/', 'b', '/', 'x', '%', '2', 'F', 'y'])
+      (routeApp miniMatch exApp (exReq "POST" ['/', 'a', '/', 'b', '/', 'x', '%', '2', 'F', 'y'])) =
+    [("id", ['x', '%', '2', 'F', 'y'])] := by decide +kernel
+/-- `GET /a/b/x/y`: commitment + nearest default — never offered to the later tail resource; the
+inner scope has no default, the enclosing scope's one answers, with the scope's data -/
+example : routeApp miniMatch exApp (exReq "GET" ['/', 'a', '/', 'b', '/', 'x', '/', 'y']) =
+    ⟨.dflt 7, ⟨4, [], [1, 2], [0, 0]⟩⟩ := by decide +kernel
+/-- `PUT /a/b/x`: 405 — matched resource, no route for the method, no registered resource default -/
+example : (routeApp miniMatch exApp (exReq "PUT" ['/', 'a', '/', 'b', '/', 'x'])).target = .notAllowed := by
+  decide +kernel
+/-- `GET /a%2Fb/x`: `%2F` is not a boundary, the request is not inside scope `/a` -/
+example : (routeApp miniMatch exApp (exReq "GET" ['/', 'a', '%', '2', 'F', 'b', '/', 'x'])).target = .handler 3 := by
+  decide +kernel
+/-- `GET /%61/b/5`: `%61` is decoded to `a` before matching -/
+example : (routeApp miniMatch exApp (exReq "GET" ['/', '%', '6', '1', '/', 'b', '/', '5'])).target = .handler 1 := by
+  decide +kernel
+/-- a chosen path exists for every request (the hypothesis of the path theorems); here it has
+three steps -/
+example : ∃ steps st', ChosenPath miniMatch exApp (exReq "GET" ['/', 'a', '/', 'b', '/', '5']) steps st' ∧
+    steps.length = 3 := by
+  obtain ⟨steps, hc, _⟩ := C09_path_unique miniMatch exApp (exReq "GET" ['/', 'a', '/', 'b', '/', '5'])
+  refine ⟨steps, _, hc, ?_⟩
+  have h4 := (C09_params_exact miniMatch exApp _ steps _ hc).2.2.2.1
+  have hl : (routeApp miniMatch exApp (exReq "GET" ['/', 'a', '/', 'b', '/', '5'])).st.ids = [0, 0, 0] := by
+    decide +kernel
+  rw [hl] at h4
+  have := congrArg List.length h4
+  simpa using this.symm
+
+end Examples
 end ActixModel.Route.C09
